@@ -175,6 +175,49 @@ func buildPool() []poolVal {
 		v, _ := m.Attr("mv_int32")
 		return v
 	}})
+	// live views of other repeated/map fields: same kind but a different enum/message type, other scalar kinds
+	view := func(label string, otherFile bool, field string, mk func(e *env, fs *fileSchema) starlark.Value) {
+		p = append(p, poolVal{"view:" + label, "view", func(e *env, fs *fileSchema) starlark.Value {
+			if otherFile {
+				fs = e.other(fs)
+			}
+			m := e.newMsg(fs.all, field, mk(e, fs))
+			v, _ := m.Attr(field)
+			return v
+		}})
+	}
+	listOf := func(f func(e *env, fs *fileSchema) []starlark.Value) func(e *env, fs *fileSchema) starlark.Value {
+		return func(e *env, fs *fileSchema) starlark.Value { return starlark.NewList(f(e, fs)) }
+	}
+	mapOf := func(f func(e *env, fs *fileSchema) starlark.Value) func(e *env, fs *fileSchema) starlark.Value {
+		return func(e *env, fs *fileSchema) starlark.Value { return dict(starlark.String("z"), f(e, fs)) }
+	}
+	ints := func(v ...int64) func(e *env, fs *fileSchema) []starlark.Value {
+		return func(*env, *fileSchema) []starlark.Value {
+			var l []starlark.Value
+			for _, x := range v {
+				l = append(l, starlark.MakeInt64(x))
+			}
+			return l
+		}
+	}
+	subMsg := func(e *env, fs *fileSchema) starlark.Value { return e.newMsg(fs.sub, "i", starlark.MakeInt(21)) }
+	allMsg := func(e *env, fs *fileSchema) starlark.Value { return e.newMsg(fs.all, "f_int32", starlark.MakeInt(22)) }
+	view("repeated-enum", false, "r_enum", listOf(ints(1, 2)))
+	view("repeated-other-enum", false, "r_other", listOf(ints(1, 7)))
+	view("repeated-enum-otherfile", true, "r_enum", listOf(ints(1)))
+	view("repeated-sub", false, "r_msg", listOf(func(e *env, fs *fileSchema) []starlark.Value { return []starlark.Value{subMsg(e, fs)} }))
+	view("repeated-all", false, "r_rec", listOf(func(e *env, fs *fileSchema) []starlark.Value { return []starlark.Value{allMsg(e, fs)} }))
+	view("repeated-sub-otherfile", true, "r_msg", listOf(func(e *env, fs *fileSchema) []starlark.Value { return []starlark.Value{subMsg(e, fs)} }))
+	view("repeated-int64", false, "r_int64", listOf(ints(5, 1<<40)))
+	view("repeated-sint32", false, "r_sint32", listOf(ints(-5)))
+	view("repeated-string", false, "r_string", listOf(func(*env, *fileSchema) []starlark.Value { return []starlark.Value{starlark.String("ONE")} }))
+	view("map-enum", false, "mv_enum", mapOf(func(*env, *fileSchema) starlark.Value { return starlark.MakeInt(2) }))
+	view("map-other-enum", false, "mv_other", mapOf(func(*env, *fileSchema) starlark.Value { return starlark.MakeInt(7) }))
+	view("map-sub", false, "mv_msg", mapOf(subMsg))
+	view("map-all", false, "mv_rec", mapOf(allMsg))
+	view("map-all-otherfile", true, "mv_rec", mapOf(allMsg))
+	view("map-int64", false, "mv_int64", mapOf(func(*env, *fileSchema) starlark.Value { return starlark.MakeInt64(1 << 40) }))
 	return p
 }
 
